@@ -10,6 +10,7 @@ import (
 	"os"
 	"strings"
 	"sync"
+	"syscall"
 	"unicode/utf8"
 
 	"github.com/ddddddO/gtree"
@@ -28,6 +29,17 @@ func init() {
 		var c Case
 		json.Unmarshal(raw, &c)
 		return runWFault(c)
+	}
+	replayers["wfault-transient"] = func(m *Model, raw json.RawMessage) []Diff {
+		var c Case
+		json.Unmarshal(raw, &c)
+		d, _ := runWTransient(c)
+		return d
+	}
+	replayers["fault-value"] = func(m *Model, raw json.RawMessage) []Diff {
+		var c faultValueCase
+		json.Unmarshal(raw, &c)
+		return runFaultValue(c)
 	}
 }
 
@@ -362,6 +374,119 @@ func runC14(ctx *Ctx) *Report {
 			}
 		}
 	}
+	// --- transient writer faults: exactly the k-th Write fails (0 or a few bytes accepted, with an error) and every
+	// later Write is accepted again – for every k of the fault-free run, every output path: a nil return would say
+	// that the output is complete although a write was refused
+	{
+		var tcases []Case
+		tfmts := []Fmt4{fmtDefault, fmtCustom, fmtEmpty, fmtMulti}
+		add := func(f []*Tree, note string, i int) {
+			doc := spell(f, plainSpelling)
+			for mi, mode := range []string{"text", "batch-text", "dry", "json", "yaml", "toml"} {
+				if mode == "toml" && len(f) != 1 {
+					continue
+				}
+				c := newCase("wfault-transient")
+				c.Mode, c.Doc, c.DocText, c.Exts, c.Note = mode, hx(doc), docText(doc), []string{".go"}, note
+				c.Fmt = tfmts[(i+mi)%len(tfmts)]
+				c.Short = []int{0, 0, 1, 3}[(i+mi)%4]
+				tcases = append(tcases, c)
+				if len(f) == 1 {
+					c2 := c
+					c2.FromRoot, c2.Tree = true, f[0].Enc()
+					tcases = append(tcases, c2)
+				}
+				if mode != "batch-text" && ((i+mi)%3 == 0 || note != "") {
+					c3 := c
+					c3.Massive = true
+					tcases = append(tcases, c3)
+					if len(f) == 1 {
+						c4 := c3
+						c4.FromRoot, c4.Tree = true, f[0].Enc()
+						tcases = append(tcases, c4)
+					}
+				}
+			}
+		}
+		for fi, f := range forests {
+			if ctx.Thorough || fi%3 == int(ctx.Seed%3+3)%3 || len(f) == 1 {
+				add(f, "", fi)
+			}
+		}
+		for k := 0; k < pick(ctx.Thorough, 1500, 150); k++ {
+			f := randForest(ctx.Rng, 2+ctx.Rng.Intn(14), []string{"plain", "plain", "unicode", "quotes"}, 3, rep.Dist)
+			if representable(f, plainSpelling) {
+				add(f, "seeded", k)
+			}
+		}
+		add(bigShapes()["deep"], "big:deep", 0)
+		add(bigShapes()["many-roots"], "big:many-roots", 1)
+		parallel(tcases, ctx.Workers, func(m *Model, c Case) {
+			diffs, hits := runWTransient(c)
+			rep.Record(c, caseKey(c), hits >= 2, diffs)
+			rep.Count("wfault-transient:" + c.Mode + ifs(c.FromRoot, "/root", "") + ifs(c.Massive, "/massive", ""))
+			rep.Count("wfault-transient: faults injected=" + ifs(hits >= 10, "10+", ifs(hits >= 3, "3-9", fmtInt(hits))))
+		})
+	}
+	// --- the VALUE of the injected error must not matter: faults that are (or wrap) errors other code gives a
+	// meaning to – a broken pipe, a closed pipe, a closed file, an unexpected EOF, a reset connection – incl. real
+	// pipes whose other end has been closed
+	{
+		var vcases []faultValueCase
+		var docs [][]*Tree
+		docs = append(docs, []*Tree{{Name: "r", Kids: []*Tree{{Name: "a", Kids: []*Tree{{Name: "b.go"}}}, {Name: "c"}}}}, bigShapes()["many-roots"][:9])
+		for len(docs) < pick(ctx.Thorough, 12, 5) {
+			f := randForest(ctx.Rng, 2+ctx.Rng.Intn(12), []string{"plain", "plain", "unicode", "quotes"}, 3, rep.Dist)
+			if representable(f, plainSpelling) {
+				docs = append(docs, f)
+			}
+		}
+		for di, f := range docs {
+			doc := spell(f, coveringSpellings()[ctx.Rng.Intn(len(coveringSpellings()))])
+			if !representable(f, plainSpelling) {
+				continue
+			}
+			for vi, val := range faultValues {
+				for mi, mode := range []string{"text", "batch-text", "dry", "json", "yaml", "toml", "walk", "mkdir-dry", "verify"} {
+					if mode == "toml" && len(f) != 1 {
+						continue
+					}
+					for _, massive := range []bool{false, true} {
+						if massive && mode == "batch-text" {
+							continue
+						}
+						if !ctx.Thorough && di >= 2 && (di+vi+mi)%3 != 0 {
+							continue
+						}
+						for _, side := range []string{"writer", "reader"} {
+							if side == "writer" && (mode == "walk" || mode == "mkdir-dry" || mode == "verify") {
+								continue
+							}
+							if side == "reader" && (val == "eof" || val == "real-os-pipe") {
+								continue // io.EOF from a reader is the end of the document, not a fault
+							}
+							c := faultValueCase{Kind: "fault-value", Doc: hx(doc), Text: docText(doc), Mode: mode, Massive: massive, Side: side, Value: val, Fmt: allFormats()[(di+vi+mi)%len(allFormats())]}
+							if side == "reader" {
+								c.After = ctx.Rng.Intn(len(doc) + 1)
+							} else {
+								c.After = ctx.Rng.Intn(3) // the writer accepts this many writes first
+							}
+							vcases = append(vcases, c)
+							if side == "writer" && len(f) == 1 {
+								c.FromRoot, c.Tree = true, f[0].Enc()
+								vcases = append(vcases, c)
+							}
+						}
+					}
+				}
+			}
+		}
+		parallel(vcases, ctx.Workers, func(m *Model, c faultValueCase) {
+			diffs := runFaultValue(c)
+			rep.Record(c, caseKey2(c), true, diffs)
+			rep.Count("fault-value:" + c.Side + "/" + c.Value + ifs(c.Massive, "/massive", ""))
+		})
+	}
 	// a failing writer that also offers WriteString (files, bufio writers do), and reports larger than any buffer
 	{
 		wide := bigShapes()["wide"]
@@ -444,3 +569,277 @@ type stringFailWriter struct{ mu sync.Mutex }
 
 func (w *stringFailWriter) Write(p []byte) (int, error)       { return 0, errWriter }
 func (w *stringFailWriter) WriteString(s string) (int, error) { return 0, errWriter }
+
+// ---------------------------------------------------------------- transient writer faults
+
+// transientWriter refuses exactly its k-th Write (accepting `short` bytes of it, with an error) and accepts every other.
+type transientWriter struct {
+	mu    sync.Mutex
+	buf   bytes.Buffer
+	k     int
+	short int
+	calls int
+	hit   bool
+}
+
+func (w *transientWriter) Write(p []byte) (int, error) {
+	w.mu.Lock()
+	defer w.mu.Unlock()
+	i := w.calls
+	w.calls++
+	if i == w.k {
+		w.hit = true
+		n := w.short
+		if n > len(p) {
+			n = len(p)
+		}
+		w.buf.Write(p[:n])
+		return n, errWriter
+	}
+	w.buf.Write(p)
+	return len(p), nil
+}
+
+// runWTransient: for every k of the fault-free run's Write calls, a writer that refuses only the k-th Write.
+// Returns the differences and the number of faults that were actually injected.
+func runWTransient(c Case) ([]Diff, int) {
+	call := func(w io.Writer) error {
+		var opts []gtree.Option
+		switch c.Mode {
+		case "text":
+			opts = fmtOpts(c.Fmt)
+		case "batch-text":
+			opts = append(fmtOpts(c.Fmt), gtree.WithNoUseIterOfSimpleOutput())
+		case "dry":
+			opts = []gtree.Option{gtree.WithDryRun(), gtree.WithFileExtensions(c.Exts)}
+		case "json", "yaml", "toml":
+			opts = []gtree.Option{encodeOpt(c.Mode)}
+		}
+		if c.Massive {
+			opts = append(opts, gtree.WithMassive(context.Background()))
+		}
+		if c.FromRoot {
+			return gtree.OutputFromRoot(w, buildRoot(parseTreeEnc(c.Tree)), opts...)
+		}
+		return gtree.OutputFromMarkdown(w, bytes.NewReader(c.doc()), opts...)
+	}
+	free := &transientWriter{k: -1}
+	if err := call(free); err != nil {
+		return []Diff{{What: "fault-free run failed", Real: classify(err), Model: "nil"}}, 0
+	}
+	free.mu.Lock()
+	n, full := free.calls, append([]byte{}, free.buf.Bytes()...)
+	free.mu.Unlock()
+	// every k up to 48, beyond that a spread that keeps the last writes
+	var ks []int
+	for k := 0; k < n; k++ {
+		if k < 48 || k >= n-4 || k%((n/40)+1) == 0 {
+			ks = append(ks, k)
+		}
+	}
+	hits := 0
+	var d []Diff
+	for _, k := range ks {
+		w := &transientWriter{k: k, short: c.Short}
+		err := call(w)
+		w.mu.Lock()
+		hit, got := w.hit, append([]byte{}, w.buf.Bytes()...)
+		w.mu.Unlock()
+		if !hit {
+			continue // (massive mode batches its writes differently from run to run) no write was refused
+		}
+		hits++
+		if err == nil {
+			d = append(d, Diff{What: "the writer refused write " + fmtInt(k) + " of " + fmtInt(n) + " (and accepted the later ones) but the call returned nil", Real: "nil; accepted " + fmtInt(len(got)) + " bytes: " + hx(clip(got, 300)), Model: "a non-nil error (the complete output has " + fmtInt(len(full)) + " bytes)"})
+			if len(d) >= 3 {
+				break
+			}
+		}
+	}
+	return d, hits
+}
+
+func clip(b []byte, n int) []byte {
+	if len(b) > n {
+		return b[:n]
+	}
+	return b
+}
+
+func caseKey2(c any) string {
+	b, _ := json.Marshal(c)
+	return string(b)
+}
+
+// ---------------------------------------------------------------- the value of the injected error
+
+type faultValueCase struct {
+	Kind     string `json:"kind"`
+	Doc      string `json:"doc_hex"`
+	Text     string `json:"doc_text,omitempty"`
+	Tree     string `json:"tree,omitempty"`
+	FromRoot bool   `json:"from_root,omitempty"`
+	Mode     string `json:"mode"`
+	Massive  bool   `json:"massive,omitempty"`
+	Side     string `json:"side"`  // reader | writer
+	Value    string `json:"value"` // which error the fault is
+	After    int    `json:"after"` // reader: bytes delivered first; writer: writes accepted first
+	Fmt      Fmt4   `json:"fmt"`
+}
+
+var faultValues = []string{"epipe", "path-epipe", "closedpipe", "wrapped-closedpipe", "unexpected-eof", "os-closed", "wrapped-os-closed",
+	"connreset", "deadline", "eof", "short-write", "no-progress", "real-io-pipe", "real-os-pipe"}
+
+func faultValue(v string) error {
+	switch v {
+	case "epipe":
+		return syscall.EPIPE
+	case "path-epipe":
+		return &os.PathError{Op: "write", Path: "|1", Err: syscall.EPIPE}
+	case "closedpipe", "real-io-pipe":
+		return io.ErrClosedPipe
+	case "wrapped-closedpipe":
+		return fmt.Errorf("stream to client: %w", io.ErrClosedPipe)
+	case "unexpected-eof":
+		return io.ErrUnexpectedEOF
+	case "os-closed":
+		return os.ErrClosed
+	case "wrapped-os-closed":
+		return &os.PathError{Op: "read", Path: "in.md", Err: os.ErrClosed}
+	case "connreset":
+		return syscall.ECONNRESET
+	case "deadline":
+		return os.ErrDeadlineExceeded
+	case "eof":
+		return io.EOF
+	case "short-write":
+		return io.ErrShortWrite
+	case "no-progress":
+		return io.ErrNoProgress
+	case "real-os-pipe":
+		return syscall.EPIPE
+	}
+	return errWriter
+}
+
+// okThenErrWriter accepts `ok` writes and fails every later one with err.
+type okThenErrWriter struct {
+	mu     sync.Mutex
+	ok     int
+	err    error
+	failed bool
+}
+
+func (w *okThenErrWriter) Write(p []byte) (int, error) {
+	w.mu.Lock()
+	defer w.mu.Unlock()
+	if w.ok > 0 {
+		w.ok--
+		return len(p), nil
+	}
+	w.failed = true
+	return 0, w.err
+}
+
+// lockedWriter serialises writes to a real pipe end.
+type lockedWriter struct {
+	mu sync.Mutex
+	w  io.Writer
+}
+
+func (w *lockedWriter) Write(p []byte) (int, error) {
+	w.mu.Lock()
+	defer w.mu.Unlock()
+	return w.w.Write(p)
+}
+
+func runFaultValue(c faultValueCase) []Diff {
+	want := faultValue(c.Value)
+	var r io.Reader = bytes.NewReader(unhx(c.Doc))
+	var w io.Writer = &lockedBuf{}
+	switch {
+	case c.Side == "reader" && c.Value == "real-io-pipe":
+		// the read end of an io.Pipe that its owner has closed
+		pr, pw := io.Pipe()
+		pr.Close()
+		defer pw.Close()
+		r = pr
+	case c.Side == "reader":
+		doc := unhx(c.Doc)
+		r = &errAfterReader{data: doc[:min(c.After, len(doc))], err: want}
+	case c.Value == "real-io-pipe":
+		pr, pw := io.Pipe()
+		pr.Close() // the consumer has gone
+		defer pw.Close()
+		w = pw
+	case c.Value == "real-os-pipe":
+		pr, pw, err := os.Pipe()
+		if err != nil {
+			return nil
+		}
+		pr.Close() // a write to this pipe now fails with EPIPE (the descriptor is not 1 or 2: no SIGPIPE death)
+		defer pw.Close()
+		w = &lockedWriter{w: pw}
+	default:
+		w = &okThenErrWriter{ok: c.After, err: want}
+	}
+	var opts []gtree.Option
+	if c.Massive {
+		opts = append(opts, gtree.WithMassive(context.Background()))
+	}
+	var err error
+	out := func(o ...gtree.Option) error {
+		if c.FromRoot {
+			return gtree.OutputFromRoot(w, buildRoot(parseTreeEnc(c.Tree)), append(opts, o...)...)
+		}
+		return gtree.OutputFromMarkdown(w, r, append(opts, o...)...)
+	}
+	switch c.Mode {
+	case "text":
+		err = out(fmtOpts(c.Fmt)...)
+	case "batch-text":
+		err = out(append(fmtOpts(c.Fmt), gtree.WithNoUseIterOfSimpleOutput())...)
+	case "dry":
+		err = out(gtree.WithDryRun(), gtree.WithFileExtensions([]string{".go"}))
+	case "json", "yaml", "toml":
+		err = out(encodeOpt(c.Mode))
+	case "walk":
+		err = gtree.WalkFromMarkdown(r, func(*gtree.WalkerNode) error { return nil }, opts...)
+	case "mkdir-dry":
+		colorOutMu.Lock()
+		old := colorOutput()
+		setColorOutput(&lockedBuf{})
+		err = gtree.MkdirFromMarkdown(r, append(opts, gtree.WithDryRun(), gtree.WithTargetDir(os.TempDir()))...)
+		setColorOutput(old)
+		colorOutMu.Unlock()
+	case "verify":
+		// against a directory that holds the whole document's tree: nothing but the reader can fail
+		jail := newJail()
+		defer os.RemoveAll(jail)
+		if merr := gtree.MkdirFromMarkdown(bytes.NewReader(unhx(c.Doc)), gtree.WithTargetDir(jail)); merr != nil {
+			return nil
+		}
+		err = gtree.VerifyFromMarkdown(r, append(opts, gtree.WithTargetDir(jail))...)
+	}
+	if ow, ok := w.(*okThenErrWriter); ok {
+		ow.mu.Lock()
+		failed := ow.failed
+		ow.mu.Unlock()
+		if !failed {
+			// the whole output fitted into the writes the writer accepts: no fault was injected
+			if err != nil {
+				return []Diff{{What: "no write was refused but the call failed", Real: err.Error(), Model: "nil"}}
+			}
+			return nil
+		}
+	}
+	what := "the " + c.Side + " failed with " + c.Value + " (" + want.Error() + "; " + c.Mode + ifs(c.Massive, ", massive", "") + ifs(c.FromRoot, ", From-Root", "") + ")"
+	if err == nil {
+		return []Diff{{What: what + " but the call returned nil", Real: "nil", Model: "that error"}}
+	}
+	if !errors.Is(err, want) && !strings.Contains(err.Error(), want.Error()) {
+		// (an encoder may flatten the writer's error into its own message: the text of the fault must still be there)
+		return []Diff{{What: what + " but the call returned another error", Real: err.Error(), Model: want.Error()}}
+	}
+	return nil
+}
